@@ -118,14 +118,14 @@ CHECKS = {
     "C19": {
         "level": "model_checking",
         "technique": "TLA+ predicates over projected values (Codec_Json: round-trip and meaning, integers as lexemes, floats as bit patterns, IEEE equality of zeros); TLC-enumerated values of the supported model through the library's ToJSON/FromJSON traits on harness-defined structs and through serde_json as the independent parser; validated by TLC (Trace_Codec)",
-        "text": "All 256 presence subsets of an object with one optional field per kind; every integer class up to the i128 extremes and every float class (zeros, 1e-7, 1e21, 5e-324, f64::MAX, 17-digit values) alone and among other fields; string classes; nested objects; arrays of 0/1/64; typed arrays of every integer width, f32/f64, string, bool, null: text parsed back by the library must equal the value, and an independent parser must read the same meaning.",
+        "text": "All 256 presence subsets of an object with one optional field per kind; every integer class up to the i128 extremes and every float class (zeros, 1e-7, 1e21, 5e-324, f64::MAX, 17-digit values) alone and among other fields; string classes; nested objects to depth 5; arrays of 0/1/64; containers inside containers (an array of objects inside the nested object, an array of integers inside a leaf that sits inside the nested object or inside an array element) with 0..129 elements; unusual property names; typed arrays of every integer width, f32/f64, string, bool, null: text parsed back by the library must equal the value, and an independent parser must read the same meaning.",
         "note": "The RFC 8259 grammar is serde_json's (trusted), not a TLA+ recogniser; integers beyond 64 bits and f64::MAX's 309-digit literal are outside what that parser represents and are not judged on the independent leg. Known finding KF-C19-non-ascii-strings.",
     },
     "C20": {
         "level": "exploration",
         "technique": "TLA+ Totality.tla (a call's outcome is value or error; panic / abort / timeout have no action) with a TLC-enumerated abstract mutation space applied by the harness to valid seed documents; every call validated by TLC (Trace_Totality)",
-        "text": "24 parsing entry points (JSON object/array splitter/7 typed readers, Base64, multipart, request, response, header, Content-Disposition, content-range, Range header, config file, 4 URL-path functions, boundary, form body) x seeds x truncation and 6 byte classes at every position, 24 byte classes at 13 relative positions, deletion, duplication, nesting / long lines / repeated delimiters up to 20 000, plus seeded random strings; each call on a 2 MiB-stack thread with a watchdog in a child process.",
-        "note": "Unbounded input space: exploration. Invalid UTF-8 cannot be passed to String-taking entry points.",
+        "text": "40 parsing entry points (JSON object / property / array splitter / typed readers of every width, Base64 text and sequence, multipart, multipart/byteranges body, request, response, header, Content-Disposition, content-range, Range header and range spec, config file, command line, URL and query string, 4 URL-path functions, boundary, form body) x seeds x truncation and 6 byte classes at every position, 24 byte classes at 13 relative positions, deletion, duplication, nesting / long lines / repeated delimiters up to 20 000, line-ending variants, repetition of the seed 1000x, every number replaced by 32 boundary values, plus seeded random strings; each call on a 2 MiB-stack thread with a watchdog in a child process.",
+        "note": "Unbounded input space: exploration. Invalid UTF-8 cannot be passed to String-taking entry points. Known finding KF-C20-url-parse-dependency-unwrap (panic inside the url-build-parse dependency).",
     },
     "C18": {
         "level": "model_checking",
